@@ -23,13 +23,18 @@ def cb(v):
 def gen_cloud(rng, kind=None):
     kind = kind or str(rng.choice(['lattice', 'lattice_noise', 'two_lattices', 'random', 'small_exact', 'tight_limits', 'limit_edge']))
     la, lb = rng.uniform(18, 35, 2)
-    fine = False
-    if kind == 'small_exact' and rng.random() < 0.5:
+    fine = elong = False
+    if kind == 'small_exact' and rng.random() < 0.6:
         # a coarse candidate vector would miss the far lattice points: long lattice vectors at the default tolerance, or a tight tolerance
-        if rng.integers(0, 2):
+        v_ = int(rng.integers(0, 3))
+        if v_ == 0:
             la, lb = rng.uniform(100, 250, 2)
-        else:
+        elif v_ == 1:
             fine = True
+        else:
+            la = float(rng.uniform(12, 20))          # a strongly elongated cell: a sub-lattice (2a, b) is more "square" than the lattice itself
+            lb = la * float(rng.uniform(3.5, 5.0))
+            elong = True
     ang = rng.uniform(0, np.pi)
     d = np.deg2rad(rng.uniform(60, 120))
     a = la * np.array([np.sin(ang), np.cos(ang)])
@@ -39,6 +44,8 @@ def gen_cloud(rng, kind=None):
     if kind == 'small_exact':
         # a complete noise-free lattice patch of at most ten points (n x m, both >= 2) that contains the zero point
         n1, m1 = [(2, 2), (2, 3), (3, 2), (3, 3), (2, 4), (4, 2), (2, 5), (5, 2)][int(rng.integers(0, 8))]
+        if elong:
+            n1, m1 = [(4, 2), (5, 2)][int(rng.integers(0, 2))]          # at least four points along the short vector a
         i0, j0 = -int(rng.integers(0, n1)), -int(rng.integers(0, m1))
         full = [(i, j) for i in range(i0, i0 + n1) for j in range(j0, j0 + m1) if (i, j) != (0, 0)]
         idx = np.vstack([[0, 0], np.array(full)[rng.permutation(len(full))]])
